@@ -71,7 +71,10 @@ def run(tier, seed, rep):
         n = 12
         ends = rnd.sample(range(1, n + 1), min(len(theo8), n))
         theo8 = theo8[:len(ends)]
-        frs = [{"id": e, "t8": t} for e, t in zip(ends, theo8)]
+        # every third event mixes charge states (m/z order is then not mass order); coverage is per charge label,
+        # so those events are judged on the matches and the fraction only
+        mixed = i % 3 == 1
+        frs = [{"id": e, "t8": t, "z": rnd.choice([1, 2, 3]) if mixed else 1} for e, t in zip(ends, theo8)]
         rnd.shuffle(frs)
         distinct = i % 2 == 0
         if distinct:
@@ -81,18 +84,21 @@ def run(tier, seed, rep):
         rnd.shuffle(peaks)
 
         def mk():
-            return [Fragment(charge=1, ion_type="b", start=0, end=f["id"], monoisotopic=True, isotope=0, loss=0.0,
-                             parent_sequence="A" * n, mass=f["t8"] / 8.0, neutral_mass=f["t8"] / 8.0, mz=f["t8"] / 8.0,
+            return [Fragment(charge=f["z"], ion_type="b", start=0, end=f["id"], monoisotopic=True, isotope=0, loss=0.0,
+                             parent_sequence="A" * n, mass=f["t8"] / 8.0 * f["z"], neutral_mass=f["t8"] / 8.0 * f["z"],
+                             mz=f["t8"] / 8.0,
                              sequence="A" * f["id"], unmod_sequence="A" * f["id"], internal=False) for f in frs]
         base = {"k": "c17", "tt": tt, "tol": tol, "frags": frs, "peaks": peaks}
-        if not peaks:
-            continue
         o, ms = call(lambda: get_fragment_matches(mk(), [p["m8"] / 8.0 for p in peaks], [float(p["inten"]) for p in peaks],
                                                   real_tol(tt, tol), tt, "all"))
         evs.append({**base, "tid": f"f{i}", "op": "fragmatch", "out": o,
                     "res": [{"id": m.fragment.end, "m8": int(round(m.mz * 8)), "inten": int(m.intensity)} for m in ms]
                     if o == "ret" else []})
-        if o == "ret" and distinct:
+        if o == "ret" and not mixed:
+            o6, covall = call(lambda: get_match_coverage(ms))
+            evs.append({**base, "tid": f"a{i}", "op": "cov1", "n": n, "out": o6,
+                        "res": (covall.get("+b", []) if o6 == "ret" else [])})
+        if o == "ret":
             o2, pct = call(lambda: get_matched_intensity_percentage(ms, [float(p["inten"]) for p in peaks]))
             evs.append({**base, "tid": f"p{i}", "op": "pct", "out": o2, "res": fix(pct) if o2 == "ret" else [0, 0]})
         mode1 = rnd.choice(["closest", "largest"])
@@ -101,7 +107,7 @@ def run(tier, seed, rep):
         evs.append({**base, "tid": f"g{i}", "op": "fragmatch1", "mode": mode1, "out": o3,
                     "res": [{"id": m.fragment.end, "m8": int(round(m.mz * 8)), "inten": int(m.intensity)} for m in ms1]
                     if o3 == "ret" else []})
-        if o3 == "ret":
+        if o3 == "ret" and not mixed:
             o5, cov1 = call(lambda: get_match_coverage(ms1))
             evs.append({**base, "tid": f"d{i}", "op": "cov1", "n": n, "out": o5,
                         "res": (cov1.get("+b", []) if o5 == "ret" else [])})
@@ -113,8 +119,11 @@ def run(tier, seed, rep):
     for i in range(6000 if thorough else 800):
         nt, no = rnd.randint(0, 8), rnd.randint(0, 10)
         theo = sorted(round(rnd.uniform(100, 110), rnd.choice([2, 4, 6])) for _ in range(nt))
-        obs = sorted(round(rnd.uniform(100, 110), rnd.choice([2, 4, 6])) for _ in range(no))
-        ftol = rnd.choice([0.01, 0.5, 0.25, 1.5, 0.003, 20.0])
+        obs = [round(rnd.uniform(100, 110), rnd.choice([2, 4, 6])) for _ in range(no)]
+        # peaks on and right next to theoretical values (decides what a tolerance of exactly 0 means)
+        obs += [round(t + d, 6) for t in theo for d in (0.0, 0.05, -0.03, 0.0001) if rnd.random() < 0.3]
+        obs = sorted(obs)
+        ftol = rnd.choice([0.01, 0.5, 0.25, 1.5, 0.003, 20.0, 0.0, 0.0])
         o, res = call(lambda: match_spectra(theo, obs, ftol, "th", "all"))
         evs.append({"k": "c17", "tid": f"o{i}", "op": "fix", "theo": [fix(x) for x in theo], "obs": [fix(x) for x in obs],
                     "ftol": fix(ftol), "out": o, "res": [([] if x is None else list(x)) for x in res] if o == "ret" else []})
